@@ -31,6 +31,9 @@ Fixpoint count_byte (c : N) (s : str) : nat :=
   | x :: r => if x =? c then S (count_byte c r) else count_byte c r
   end.
 
+(* plain ASCII without CR or LF *)
+Definition clean (s : str) : Prop := is_ascii s = true /\ ~ In 10 s /\ ~ In 13 s.
+
 (* ---- registrations ---------------------------------------------------- *)
 
 (* the keys a registration claims: the lower-cased name, then the lower-cased aliases;
